@@ -21,7 +21,96 @@ def mentions_meta(x):
     return L.mentions(x, lambda y: y == ("param", "metadata") or y == ("param", "meta"))
 
 
+def calendar_rule(prog, run):
+    """R4: the day-count -> (year, month, day) conversion is the proleptic Gregorian calendar.  The three result expressions are
+    extracted symbolically; all depend only on doe = z % 146097 (one 400-year era) and, for the year, affinely on era = z / 146097;
+    they are evaluated for every one of the 146097 days of an era and compared with the reference calendar (python datetime), in
+    two different eras; affinity in `era` (syntactic) extends the result to every era."""
+    import datetime
+    from .. import absint as A
+    from .. import mir, sym
+    u = prog.lib
+    cands = []
+    for f, b in u.bodies.items():
+        if b["in_test_cfg"] or b["argc"] != 1:
+            continue
+        rty = b["locals"][0]["ty"].strip()
+        if rty.startswith("(") and len(rty.strip("()").split(",")) == 3 and all(t.strip() in A.INT_RANGE for t in rty.strip("()").split(",")) and b["locals"][1]["ty"] in A.INT_RANGE:
+            cands.append(f)
+    if len(cands) != 1:
+        run.bad("R4", "anchor calendar", "expected one day-count -> (y, m, d) conversion, found %d" % len(cands))
+        return
+    b = u.bodies[cands[0]]
+    cx = A.Ctx(b, u)
+    ret = sym.expr_local(b, 0)
+    if not (ret[0] == "agg" and ret[1] == "tuple" and len(ret[3]) == 3):
+        run.bad("R4", "calendar shape", "the conversion does not return a tuple expression")
+        return
+    comps = [A.resolve_ites(cx, c) for c in ret[3]]
+    # leaves: x % 146097 and x / 146097 of one and the same x
+    rems, divs = {}, {}
+    for c in comps:
+        for y in sym.walk(c):
+            if isinstance(y, tuple) and len(y) == 4 and y[0] == "bin" and y[3][:1] == ("const",) and y[3][1] == 146097:
+                if y[1] == "Rem":
+                    rems[A.L_freeze(y)] = y
+                elif y[1] == "Div":
+                    divs[A.L_freeze(y)] = y
+    if len(rems) != 1:
+        run.bad("R4", "calendar shape", "expected the conversion to be a function of one `z %% 146097` term (found %d)" % len(rems))
+        return
+    rem = next(iter(rems.values()))
+    divs = {k: v for k, v in divs.items() if v[2] == rem[2]}      # era = z / 146097 of the same z; other divisions are ordinary terms
+    leaves = [A.L_freeze(rem)] + [A.L_freeze(d) for d in divs.values()]
+    # z = days + K : the epoch shift
+    zl = cx.lin(rem[2])
+    shift = zl.c if (len(zl.t) == 1 and list(zl.t.values()) == [1]) else None
+    run.check(shift == 719468, "R4", "calendar epoch", "z = days + 719468 (days from 0000-03-01 to 1970-01-01)", "the epoch shift is %s, expected 719468" % shift, mir.loc_of(b))
+    try:
+        fy, fm, fd = [A.compile_expr(c, leaves) for c in comps]
+    except A.NoEval as e:
+        run.bad("R4", "calendar evaluable", "cannot evaluate the extracted expressions: %s" % e)
+        return
+    # month/day independent of era, year affine in era (syntactic: era only under + and * const)
+    def era_free(c):
+        return not any(A.L_freeze(y) in leaves[1:] for y in sym.walk(c) if isinstance(y, tuple))
+
+    def affine(c, k):
+        fz = A.L_freeze(c)
+        if fz == k:
+            return True
+        if not any(A.L_freeze(y) == k for y in sym.walk(c) if isinstance(y, tuple)):
+            return True
+        if c[0] == "proj" and c[1][0] == "bin" and c[1][1] in ("AddWithOverflow", "MulWithOverflow"):
+            c = ("bin", c[1][1][:3], c[1][2], c[1][3])
+        if c[0] == "bin" and c[1] == "Add":
+            return affine(c[2], k) and affine(c[3], k)
+        if c[0] == "bin" and c[1] == "Mul":
+            return (c[2][0] == "const" and affine(c[3], k)) or (c[3][0] == "const" and affine(c[2], k))
+        return False
+    struct_ok = era_free(comps[1]) and era_free(comps[2]) and (len(leaves) == 1 or affine(comps[0], leaves[1]))
+    run.check(struct_ok, "R4", "calendar era-structure", "month/day depend on the day of the era only; the year is affine in the era", "month/day depend on the era, or the year is not affine in it", mir.loc_of(b))
+    bad = None
+    n = 0
+    for era in (4, 5):
+        for doe in range(146097):
+            args = (doe, era)[:len(leaves)]
+            d = datetime.date.fromordinal(era * 146097 + doe - 305)
+            got = (fy(*args), fm(*args), fd(*args))
+            n += 1
+            if got != (d.year, d.month, d.day):
+                bad = (era, doe, got, (d.year, d.month, d.day))
+                break
+        if bad:
+            break
+    run.extra["calendar_days_evaluated"] = n
+    run.check(bad is None, "R4", "calendar == proleptic Gregorian", "all %d days of two 400-year eras agree with the reference calendar" % n,
+              "day %s of era %s converts to %s, the calendar says %s" % (bad[1], bad[0], bad[2], bad[3]) if bad else "", mir.loc_of(b))
+
+
 def check(prog, run):
+    run.rule("R4", "creation-date conversion: (year, month, day) expressions == proleptic Gregorian calendar on every day of a 400-year era (exhaustive evaluation of the extracted expressions), affine in the era")
+    calendar_rule(prog, run)
     run.rule("R1", "udta layout: none when no item; else udta>meta(0)>hdlr(mdir)+ilst>items; name item = data(type=1, locale=0) ++ exact title bytes, at most one")
     run.rule("R2", "non-interference: `metadata` occurs nowhere in the moov production except under udta and in the mdhd language field")
     run.rule("R3", "language: every mdhd language field derives from metadata.language with the `und` default")
